@@ -355,6 +355,12 @@ func cmdCheck(args []string) int {
 		solverSecs += o.Secs
 		if *verbose || o.Status != "proved" {
 			fmt.Printf("  [%s] %s (%s %.2fs)\n", o.Status, o.Name, o.Backend, o.Secs)
+			if *keep {
+				fmt.Printf("      query: %s\n", o.file)
+				for _, s := range o.subs {
+					fmt.Printf("      sub %s [%s]: %s\n", s.Name, s.Status, s.file)
+				}
+			}
 		}
 		if f, ok := known[o.Name]; ok {
 			if o.Status != "proved" {
@@ -371,6 +377,11 @@ func cmdCheck(args []string) int {
 			if len(samples) < 6 {
 				samples = append(samples, map[string]interface{}{"obligation": o.Name, "backend": o.Backend, "secs": o.Secs, "smt_bytes": len(o.query(false))})
 			}
+			continue
+		}
+		if o.Status == "error" {
+			fmt.Fprintf(os.Stderr, "ENGINE ERROR: malformed query for %s:\n%s\n", o.Name, trimOutN(o.Output, 600))
+			vacuous++ // forces exit 2
 			continue
 		}
 		violations++
